@@ -213,7 +213,10 @@ theorem invariant_admissible_histories (s : St ℝ) (h : Inv s) (ops : List Op)
   inv_run_admissible s h ops hw
 
 /-! Copies, assignment, the heap of objects with all their data members, the invariant over all
-histories of several objects: `Props/C19Obj.lean`. -/
+histories of several objects: `Props/C19Obj.lean`.  The object `St` of this section (dimension,
+method, one constraint flag, parameter values, probabilities — what C09 / C13 build on) is the
+projection of the full object model run by the driver: `C19.value_model_is_projection`,
+`C19.ordered_value_model_is_projection`. -/
 
 /-! ## OrderedSimplex -/
 
